@@ -114,6 +114,27 @@ def _vm_goal(case, out):
             return "(vm_hyp %s, vm_listing (%s)\n   [%s]) = (%s, true)" % (t, call, ";\n    ".join(items), hb)
         cls = {"ERR outside": 1, "ERR digest": 2, "ERR reject": 4}[rest]
         return "(vm_hyp %s, vm_cls (%s)) = (%s, %d%%nat)" % (t, call, hb, cls)
+    if k == "E":
+        n = int(toks[4])
+        ents = []
+        for j in range(n):
+            nm, typ, mode, payload = toks[5 + 4 * j:9 + 4 * j]
+            kind = {"f": "(EReg %s)" % _vm_str(payload), "d": "EDir", "l": "(ELnk %s)" % _vm_str(payload)}[typ]
+            ents.append("mkEntry %s %s %s 0" % (_vm_path(nm), kind, mode))
+        el = "[" + ";\n     ".join(ents) + "]" if ents else "(@nil entry)"
+        call = "extract %s %s %s\n    %s" % (_vm_path(toks[3]), toks[1], _vm_bool(toks[2]), el)
+        if out.startswith("UNJUDGED"):
+            return "vm_cls (%s) = 3%%nat" % call
+        if out.startswith("OK "):
+            items = []
+            for it in out[3:].split(","):
+                pth, typ, mode, payload = it.split(":")
+                node = {"f": lambda: "NFile %s %d" % (_vm_str(payload), int(mode, 8)),
+                        "d": lambda: "NDir %d" % int(mode, 8),
+                        "l": lambda: "NLink %s" % _vm_str(payload)}[typ]()
+                items.append("(%s, %s)" % (_vm_path(pth), node))
+            return "vm_listing (%s)\n   [%s] = true" % (call, ";\n    ".join(items))
+        return "vm_cls (%s) = %d%%nat" % (call, {"ERR outside": 1, "ERR digest": 2, "ERR reject": 4}[out])
     if k == "P" and out == "EQ":
         ta, j = _vm_tree(toks, 3)
         tb, _ = _vm_tree(toks, j + 1)
@@ -129,7 +150,7 @@ def _vm_goal(case, out):
 
 def _c12_vm_sample(d, tier, coq, build):
     import os, subprocess, collections
-    quota = {"T": 80, "X": 120, "P": 30, "M": 60} if tier == "thorough" else {"T": 8, "X": 14, "P": 4, "M": 6}
+    quota = {"T": 80, "X": 120, "P": 30, "M": 60, "E": 60} if tier == "thorough" else {"T": 8, "X": 14, "P": 4, "M": 6, "E": 8}
     outs = {}
     with open(os.path.join(d, "model.txt")) as f:
         for l in f:
